@@ -559,6 +559,7 @@ func c08Binary(r *rand.Rand, rep *runReport, cwd string, n int) {
 	var jobs []job
 	for si := range scens {
 		dir := filepath.Join(cwd, "bin", fmt.Sprintf("s%02d", si))
+		os.RemoveAll(dir) // search mode re-runs the harness in the same work directory: start every scenario from an empty one
 		names := checks.CheckNames
 		if scens[si].Names != nil {
 			names = scens[si].Names
